@@ -26,7 +26,7 @@ def gen(rng, tier):
         if 0 in es and rng.random() < 0.8:
             es = [max(e, 1) for e in es]
         canon = left_strides(es) if left else right_strides(es)
-        kind = rng.choice(["canonical", "canonical", "off_by_one", "permuted", "scaled", "last_only", "first_only"])
+        kind = rng.choice(["canonical", "canonical", "off_by_one", "permuted", "scaled", "last_only", "first_only", "congruent", "congruent"])
         ss = list(canon)
         if R > 0:
             if kind == "off_by_one":
@@ -39,7 +39,12 @@ def gen(rng, tier):
                 ss[-1] += 1
             elif kind == "first_only":
                 ss[0] += 1
-        if any(s <= 0 or s > M for s in ss) or any(e > M for e in es) or prod1(es) > M:
+            elif kind == "congruent":
+                # differs from the canonical stride by a multiple of 2^width(target index type): equal after a
+                # narrowing cast to the target type, different in the common type (needs a wider source type)
+                k = rng.randrange(R); ss[k] += (1 << BITS[tt]) * rng.choice([1, 1, 2])
+        smax = imax(ts) if kind == "congruent" else M
+        if any(s <= 0 or s > smax for s in ss) or any(e > M for e in es) or prod1(es) > M:
             continue
         src = MV(Inst(ts, 2, DYN, rand_pattern(rng, es)), 1, es, ss)
         tinst = Inst(tt, 0 if left else 1, DYN, rand_pattern(rng, es))
